@@ -425,20 +425,20 @@ SIf ==
 SLoop ==        \* while / do / for: replace the statement by a loop item
   /\ CRunning /\ Top.k = "s" /\ S.k \in {"while", "do", "for"}
   /\ IF S.k = "for" THEN
-       ck' = Push(Push(Pop, [k |-> "loop", c |-> S.c, body |-> S.body, step |-> S.step, phase |-> "test", env0 |-> env]), [k |-> "s", s |-> S.init])
-     ELSE ck' = Push(Pop, [k |-> "loop", c |-> S.c, body |-> S.body, step |-> [k |-> "nop"], phase |-> IF S.k = "do" THEN "body" ELSE "test", env0 |-> env])
+       ck' = Push(Push(Pop, [k |-> "loop", c |-> S.c, body |-> S.body, step |-> S.step, phase |-> "test", env0 |-> env, benv |-> env]), [k |-> "s", s |-> S.init])
+     ELSE ck' = Push(Pop, [k |-> "loop", c |-> S.c, body |-> S.body, step |-> [k |-> "nop"], phase |-> IF S.k = "do" THEN "body" ELSE "test", env0 |-> env, benv |-> env])
   /\ CTick /\ UNCHANGED <<cpid, genv, env, mem, cout, cstatus, cret, depth>>
 
 SLoopTest ==
   /\ CRunning /\ Top.k = "loop"
   /\ CASE Top.phase = "body" ->
-            ck' = Push([ck EXCEPT ![Len(ck)].phase = "step"], [k |-> "s", s |-> Top.body]) /\ UNCHANGED <<env, cstatus>>
+            ck' = Push([ck EXCEPT ![Len(ck)].phase = "step", ![Len(ck)].benv = env], [k |-> "s", s |-> Top.body]) /\ UNCHANGED <<env, cstatus>>
        [] Top.phase = "step" ->
             ck' = Push([ck EXCEPT ![Len(ck)].phase = "test"], [k |-> "s", s |-> Top.step]) /\ UNCHANGED <<env, cstatus>>
        [] Top.phase = "test" ->
             LET c == Eval(Top.c) IN
             IF ~c.ok THEN cstatus' = "undef:" \o c.why /\ UNCHANGED <<ck, env>>
-            ELSE IF Truth(c) THEN ck' = Push([ck EXCEPT ![Len(ck)].phase = "step"], [k |-> "s", s |-> Top.body]) /\ UNCHANGED <<env, cstatus>>
+            ELSE IF Truth(c) THEN ck' = Push([ck EXCEPT ![Len(ck)].phase = "step", ![Len(ck)].benv = env], [k |-> "s", s |-> Top.body]) /\ UNCHANGED <<env, cstatus>>
             ELSE ck' = Pop /\ env' = Top.env0 /\ UNCHANGED cstatus
   /\ CTick /\ UNCHANGED <<cpid, genv, mem, cout, cret, depth>>
 
@@ -456,7 +456,7 @@ SBreak ==
 SContinue ==
   /\ IsStmt("continue")
   /\ LET j == InnerPos({"loop"}) IN
-       IF j = 0 THEN Fail("continue-outside") ELSE ck' = SubSeq(ck, 1, j) /\ env' = ck[j].env0 /\ CTick /\ UNCHANGED <<cpid, genv, mem, cout, cstatus, cret, depth>>
+       IF j = 0 THEN Fail("continue-outside") ELSE ck' = SubSeq(ck, 1, j) /\ env' = ck[j].benv /\ CTick /\ UNCHANGED <<cpid, genv, mem, cout, cstatus, cret, depth>>
 
 SSwitch ==      \* body: sequence of statements with case/default markers; control enters after the selected marker
   /\ IsStmt("switch")
